@@ -94,6 +94,19 @@ def canon(lex, e, links):
     return C
 
 
+def _only_idless_links_lost(P1, P2, idless):
+    """re-imported (P2) vs original (P1) transcripts: every sense keeps a subset of its frames and whatever is
+    missing is a frame without an id - nothing extra, nothing moved, no id-carrying frame lost"""
+    try:
+        for sk, rec in P1['senses'].items():
+            f1, f2 = list(rec.get('frames', [])), list(P2['senses'][sk].get('frames', []))
+            if any(f not in f1 for f in f2) or any(f not in idless for f in f1 if f not in f2):
+                return False
+        return True
+    except (KeyError, TypeError, AttributeError):
+        return False
+
+
 def links_of(lex):
     st = Store()
     st.lexs.append(lex)
@@ -274,7 +287,15 @@ def check(case):
                         if ra[:3] == rb[:3] and (ra[ti] != rb[ti] or ra[pi] != rb[pi]):
                             xt = [t for t in ra[ti] if t not in rb[ti]]
                             xp = [p_ for p_ in ra[pi] if p_ not in rb[pi]]
-                            if all(t in ra[ti] for t in rb[ti]) and all(p_ in ra[pi] for p_ in rb[pi]):
+                            # accepted only for what the extension itself declares on an external lemma / form
+                            decl_t = [[t['text'], t['category']] for xe in X.get('entries', []) if xe.get('external')
+                                      for xf in [xe.get('lemma') or {}] + list(xe.get('forms', []))
+                                      if xf.get('external') for t in xf.get('tags', [])]
+                            decl_p = [p_['text'] for xe in X.get('entries', []) if xe.get('external')
+                                      for xf in [xe.get('lemma') or {}] + list(xe.get('forms', []))
+                                      if xf.get('external') for p_ in xf.get('pronunciations', [])]
+                            if all(t in ra[ti] for t in rb[ti]) and all(p_ in ra[pi] for p_ in rb[pi]) \
+                                    and all(list(t) in decl_t for t in xt) and all(p_[0] in decl_p for p_ in xp):
                                 V.append((K_EXT_ANNOT, f'entry {eid} form {ra[0]!r}: exported tags {xt} / '
                                           f'pronunciations {xp} belong to the extension'))
                                 ra[ti], ra[pi] = rb[ti], rb[pi]
@@ -332,7 +353,7 @@ def check(case):
                         path = x.split(': ', 1)[0]
                         segs = [s for s in path.split('/') if s and '|' not in s and ':' not in s]
                         key = 'reimport:' + '.'.join(__import__('re').sub(r'\[\d+\]', '', s) for s in segs[:2])
-                        if 'frames' in path and e != '1.0' and idless:
+                        if 'frames' in path and e != '1.0' and idless and _only_idless_links_lost(P1, P2, idless):
                             key = K_NOID
                         V.append((key, f're-imported (first) vs original (second): {x}'))
             env.drop_db(db2)
